@@ -183,7 +183,7 @@ func init() {
 	})
 	register(&spec{
 		ID: "C26", Title: "xgo fmt never loses a file at any crash point and keeps its mode", Level: "fault_enumeration",
-		Instrument: map[string]simgen.Options{xgo + "/cmd/internal/gopfmt": {Swap: map[string]string{"os": simgen.SimosPath}}},
+		Instrument: map[string]simgen.Options{xgo + "/cmd/internal/gopfmt": {Sync: true, Conc: true, Maps: true, Swap: map[string]string{"os": simgen.SimosPath, "time": simgen.SimrtPath + "/stime"}}},
 		Harness:    []harnessCopy{{"c26", "cmd/internal/gopfmt"}},
 		TestPkg:    "cmd/internal/gopfmt", TestName: "TestZSimC26",
 		QuickRuns: 3000, ThoroughRuns: 300000, QuickBudget: 4 * time.Minute, ThoroughBudget: 40 * time.Minute,
